@@ -93,9 +93,10 @@ def srcIds (allowNeg : Bool) : Int → List Field → List Int
   | _, [] => []
   | next, f :: rest => (assignId allowNeg next f.id).1 :: srcIds allowNeg (assignId allowNeg next f.id).2 rest
 
-/-- `compileField`'s bounds check: `(src.ID < 1 && !allowNegativeIDs) || src.ID > math.MaxInt16`. -/
+/-- `compileField`'s bounds check:
+`(src.ID < 1 && !allowNegativeIDs) || src.ID > math.MaxInt16 || src.ID < math.MinInt16`. -/
 def idRejected (allowNeg : Bool) (sid : Int) : Bool :=
-  (decide (sid < 1) && !allowNeg) || decide (sid > 32767)
+  (decide (sid < 1) && !allowNeg) || decide (sid > 32767) || decide (sid < -32768)
 
 /-- `compileFields`. `names`: claimed field names; `used`: `usedIDs` keys; `next`: `nextNegativeID`. -/
 def gatherFields (o : FieldOpts) : List Field → List Name → List Int → Int → Option (List GField)
@@ -107,7 +108,7 @@ def gatherFields (o : FieldOpts) : List Field → List Name → List Int → Int
     | none => none
     | some req =>
       if o.disallowDefault ∧ f.dflt.isSome then none else
-      -- `ID: int16(src.ID)` below the `TODO(abg): perform bounds check on field ID`
+      -- `ID: int16(src.ID)`
       if used.contains (wrap16 (assignId o.allowNeg next f.id).1) then none else
       match gatherFields o rest (f.name :: names) (wrap16 (assignId o.allowNeg next f.id).1 :: used)
           (assignId o.allowNeg next f.id).2 with
@@ -119,14 +120,18 @@ def compileFields (o : FieldOpts) (fs : List Field) : Option (List GField) :=
 
 /-! ### enums (compile/enum.go) -/
 
+/-- `compileEnum`'s bounds check: `value < math.MinInt32 || value > math.MaxInt32`. -/
+def enumValueRejected (v : Int) : Bool := decide (v < -2147483648) || decide (v > 2147483647)
+
 /-- `compileEnum`'s loop. `names`: lower-cased claimed names; `prev`: previous value (a Go `int`). -/
 def gatherEnumItems : List (Name × Option Int) → List Name → Int → Option (List (Name × Int))
   | [], _, _ => some []
   | (n, v) :: rest, names, prev =>
     if names.contains (toLower n) then none else
+    if enumValueRejected (match v with | some x => x | none => wrap64 (prev + 1)) then none else
     match gatherEnumItems rest (toLower n :: names) (match v with | some x => x | none => wrap64 (prev + 1)) with
     | none => none
-    -- `Value: int32(value)` below the `TODO bounds check for value`
+    -- `Value: int32(value)`
     | some is => some ((n, wrap32 (match v with | some x => x | none => wrap64 (prev + 1))) :: is)
 
 def compileEnum (items : List (Name × Option Int)) : Option (List (Name × Int)) :=
